@@ -10,7 +10,9 @@ R1 instruction table per opcode (legacy opcodes): for the handler each byte disp
 R2 handler wiring: the default function installed in each execution-handler slot, and the slot's
    dispatcher method, reach the slot's own context function and none of its siblings'; run_the_loop
    routes each InterpreterAction / Frame / FrameResult variant to the dispatcher of the same family;
-R3 activation per fork is C05's table; dynamic gas is C14's; fees are C09's (referenced).
+R3 the rule sets of C05 (activation per fork), C09 (gas settlement and fees), C13 (gas accounting)
+   and C14 (dynamic gas) run as part of this check under the rule prefix `Cxx/` (thorough: also
+   C02, C03, C04, C08, C10, C11, C12): each is a necessary condition of spec-conformant execution.
 """
 import os
 import sys
@@ -28,6 +30,9 @@ META = {
     'does_not_decide': 'the value each handler computes, nested call semantics, post-state equality with the execution specification (no static argument in reach); dynamic gas (C14), activation (C05), fees (C09) are decided there',
     'explanation': 'Path enumeration of each instruction handler with helper inlining (events: stack accessors, gas charges, result stores); const evaluation of OPCODE_INFO_JUMPTABLE; call-graph wiring of the handler slots.',
 }
+
+INCLUDED_QUICK = ('c05', 'c09', 'c13', 'c14')              # activation, settlement, gas accounting, dynamic gas
+INCLUDED_THOROUGH = ('c02', 'c03', 'c04', 'c08', 'c10', 'c11', 'c12')
 
 DEFERRED = {0xF0, 0xF1, 0xF2, 0xF4, 0xF5, 0xFA}      # CREATE, CALL, CALLCODE, DELEGATECALL, CREATE2, STATICCALL
 HALT_RESULT = {0x00: 'Stop', 0xF3: 'Return', 0xFD: 'Revert', 0xFF: 'SelfDestruct'}
@@ -94,7 +99,10 @@ def run(ctx, rep):
         if gas is not None:
             firsts = {(x['gas'][0] if x['gas'] else 0) for x in s.success}
             totals = {sum(g for g in x['gas'] if g is not None) if all(g is not None for g in x['gas']) else None for x in s.success}
-            if b in (0xF0, 0xF5):
+            if b == 0xF5:
+                # CREATE2's 32000 is the constant term of create2_cost (decided in C14)
+                ok = all(any('create2_cost' in g for g in x['gas_src']) for x in s.success)
+            elif b == 0xF0:
                 ok = all(any(g == gas for g in x['gas']) for x in s.success)
             elif gas == 0:
                 ok = all(not [g for g in x['gas'] if g] for x in s.success) or firsts == {0}
@@ -123,6 +131,10 @@ def run(ctx, rep):
     rep.floor('legacy-opcodes-summarised', n, 140)
     check_outcome_push(fx, rep)
     check_wiring(fx, rep)
+    # R3: the specification's other decidable parts are the rule sets of the properties below; a
+    # transaction executes as specified only if they hold too, so they run as part of this check
+    import engine
+    engine.run_included(ctx, rep, INCLUDED_QUICK + (INCLUDED_THOROUGH if ctx.tier == 'thorough' else ()))
     rep.assume('OSAKA-only (EOF) opcodes are outside the statement\'s quantifier (FRONTIER..PRAGUE); their guards are decided in C05')
 
 
@@ -315,26 +327,29 @@ def check_loop_arms(fx, rep, loop):
         arms = {}
         for v, tg in b.term.d['arms']:
             arms.setdefault(tg, []).append(fx.variant_by_discr(adt, v))
+        per_arm = {}
+        for tg, vs in arms.items():
+            others = set(arms) - {tg}
+            region = cfg.reach_set(tg, banned_blocks=others | {b.i})
+            called = set()
+            for x in sorted(region):
+                t = loop.blocks[x].term
+                # dispatcher calls in blocks dominated by the arm target belong to the arm
+                if t.kind == 'call' and (t.target_fn or '') in all_disp and cfg.dominates(tg, x):
+                    called.add(t.target_fn[len(E):])
+            per_arm[tg] = called
+        if not any(per_arm.values()):
+            continue        # a drop-elaboration switch on the same enum, not a routing match
+        siblings = {w for (s_, _v), w in fam.items() if s_ == short}
         for tg, vs in arms.items():
             for v in vs:
                 want = fam.get((short, v))
                 if want is None:
                     continue
-                others = set(arms) - {tg}
-                region = cfg.reach_set(tg, banned_blocks=others | {b.i})
-                first = None
-                # the first dispatcher call reached from this arm
-                order = sorted(region)
-                called = set()
-                for x in order:
-                    t = loop.blocks[x].term
-                    if t.kind == 'call' and (t.target_fn or '') in all_disp:
-                        # only count dispatchers whose block is dominated by the arm target
-                        if cfg.dominates(tg, x):
-                            called.add(t.target_fn[len(E):])
+                called = per_arm[tg]
                 done += 1
                 key = 'loop:%s::%s' % (short, v)
-                if want in called and not (called - {want}) & {w for (s_, _v), w in fam.items() if s_ == short}:
+                if want in called and not (called - {want}) & siblings:
                     rep.ok('R2-wiring', key, want)
                 else:
                     rep.violation('R2-wiring', key, 'run_the_loop handles %s::%s by calling %s, expected %s' % (short, v, sorted(called), want), loop.where(tg))
